@@ -262,6 +262,54 @@ func c07(c *core.Ctx) {
 			}
 		}
 		c.Floor("safe-setter-raw-calls", n, 15)
+		// a constructed log is always pushed: the constructor takes a provisional version from the account, so dropping the log afterwards
+		// leaves a gap in the journal's version sequence and the continuity check of RevertToSnapshot panics
+		nc := 0
+		for i := 0; i < ms.Len(); i++ {
+			f := ms.At(i).Obj().(*types.Func)
+			fn := c.FuncOf(f)
+			if fn == nil || fn.Blocks == nil {
+				continue
+			}
+			for _, lt := range lts {
+				if lt.ctor == nil {
+					continue
+				}
+				for _, cc := range core.CallsIn(fn, lt.ctor.Object().(*types.Func)) {
+					nc++
+					var avoid []*ssa.BasicBlock
+					for _, p := range performsCalls(fn, push, 2) {
+						avoid = append(avoid, p.Block())
+					}
+					ev := core.ErrResult(cc)
+					var fv map[ssa.Value]bool
+					if ev != nil {
+						fv = core.Derived(ev)
+					}
+					ok := true
+					for _, r := range core.Returns(fn) {
+						if in(avoid, r.Block()) && r.Block() != cc.Block() {
+							continue
+						}
+						reach := r.Block() == cc.Block() && !in(avoid, cc.Block())
+						for _, sb := range cc.Block().Succs {
+							if sb == r.Block() && !in(avoid, sb) || core.CanReach(sb, r.Block(), avoid...) {
+								reach = true
+							}
+						}
+						if !reach {
+							continue
+						}
+						// reached without a push: only the constructor's own failure may leave this way
+						if ev == nil || core.ClassifyReturn(r, fv, nil) != core.RetFailure || !core.KnownNonNilAt(ev, r.Block()) {
+							ok = false
+						}
+					}
+					c.Check("SafeAccount."+f.Name()+":"+lt.name+"-constructed⇒pushed", "journal-before-write", ok, cc.Pos(), "after SafeAccount.%s made a %s (which takes a provisional version) every path to a return pushes it; only the constructor's own error may leave without", f.Name(), lt.name)
+				}
+			}
+		}
+		c.Floor("constructor-calls-in-setters", nc, 15)
 		// Manager.Finalise: pushes root logs
 		fin := c.Fn(accPkg + ".Manager.Finalise")
 		rf := core.CallsInDeep(fin, c.Method(accPkg+".Account", "Finalise"))
@@ -735,6 +783,21 @@ func c07(c *core.Ctx) {
 			}
 			return false
 		}
+		transferF := c.FieldVar("chain/vm.Context", "Transfer")
+		isWrite := func(ci ssa.CallInstruction) bool {
+			if o := core.CalleeObj(ci); o != nil {
+				if rn := recvNamed(o); rn != nil && rn.Name() == "AccountAccessor" && journalling[o.Name()] {
+					return true
+				}
+			}
+			// evm.Transfer(...) — a call through the Transfer field of the context
+			if v := ci.Common().Value; v != nil && !ci.Common().IsInvoke() {
+				if ld, isLd := v.(*ssa.UnOp); isLd && core.FieldOf(ld.X) == transferF {
+					return true
+				}
+			}
+			return false
+		}
 		n := 0
 		for _, fn := range c.SrcFuncs {
 			rel := core.RelPkg(fn)
@@ -746,7 +809,7 @@ func c07(c *core.Ctx) {
 				continue
 			}
 			n++
-			checkPairing(c, fn, snaps, core.CallsIn(fn, revM...), isStep)
+			checkPairing(c, fn, snaps, core.CallsIn(fn, revM...), isStep, isWrite)
 		}
 		c.Floor("functions-taking-snapshots", n, 7)
 	})
@@ -998,7 +1061,7 @@ func lenGuards(fn *ssa.Function, field *types.Var) []lenGuard {
 // return must pass RevertToSnapshot(snapshot) on all paths from that edge to the return — for the calls in `guarded` position:
 // the execution step (a call that itself runs code: run, applyTx, …) identified as the calls dominated by the snapshot whose failing edge
 // reaches at least one revert. Additionally at least one revert with the same snapshot value must exist per snapshot.
-func checkPairing(c *core.Ctx, fn *ssa.Function, snaps, revs []ssa.CallInstruction, isStep func(ssa.CallInstruction) bool) {
+func checkPairing(c *core.Ctx, fn *ssa.Function, snaps, revs []ssa.CallInstruction, isStep, isWrite func(ssa.CallInstruction) bool) {
 	name := shortFn(fn)
 	for i, s := range snaps {
 		key := name + "#snapshot" + string(rune('a'+i))
@@ -1058,6 +1121,19 @@ func checkPairing(c *core.Ctx, fn *ssa.Function, snaps, revs []ssa.CallInstructi
 			c.Check(key+":"+callee+"-failure→revert", "pairing", ok, ci.Pos(), "in %s every path from a failure of %s to a return (or to the next iteration) passes RevertToSnapshot(snapshot)", name, callee)
 		}
 		c.Check(key+":guards-a-step", "pairing", steps >= 1, s.Pos(), "the snapshot of %s protects at least one failing step (%d found)", name, steps)
+		// the snapshot is taken before anything the revert must undo: every journalled write of the function comes after it
+		if len(snaps) == 1 && isWrite != nil {
+			for _, ci := range core.AllCalls(fn) {
+				if !isWrite(ci) {
+					continue
+				}
+				callee := "write"
+				if o := core.CalleeObj(ci); o != nil {
+					callee = objName(o)
+				}
+				c.Check(key+"≺"+callee, "pairing", core.Dominates(s, ci), ci.Pos(), "in %s the journalled write %s happens after the snapshot that a failing step reverts to", name, callee)
+			}
+		}
 	}
 }
 
